@@ -3,6 +3,8 @@ package bbc
 import (
 	"bytes"
 	"io"
+	"os"
+	"strings"
 	"testing"
 
 	log "github.com/sirupsen/logrus"
@@ -42,6 +44,55 @@ func c04Join(frs [][]byte) []byte {
 // transmission that has arrived in full; a frame can complete at most one transmission.
 func init() {
 	vk.ExtraBudget = func(in []byte) uint64 { return 9 << 20 * uint64(len(c04Split(in))) }
+	// known finding c04.oom.xz-index (see known_findings.json / DESIGN.md section 5): the xz library allocates
+	// its index by the record count announced in the stream. A failure is attributed to it by its call site
+	// (process death with xz.readIndexBody on the stack) or, for an allocation above the budget, by the input
+	// carrying an index indicator followed by a large record count.
+	vk.RefineTag = func(tag string, in []byte, r *vk.ChildResult) string {
+		if strings.HasPrefix(tag, "c04.process-death") && strings.Contains(r.Stderr, "xz.readIndexBody") {
+			return "c04.oom.xz-index"
+		}
+		if strings.HasPrefix(tag, "c04.panic") && strings.Contains(r.Panic, "xz.readIndexBody") {
+			return "c04.oom.xz-index" // make([]record, n) with n beyond the slice limit panics instead of exhausting memory
+		}
+		if strings.HasPrefix(tag, "c04.alloc") && c04XzIndexSuspect(in) {
+			return "c04.oom.xz-index"
+		}
+		return tag
+	}
+	for _, k := range strings.Split(os.Getenv("VERIF_KNOWN"), ",") {
+		if k == "c04.oom.xz-index.bbc-fragments" {
+			vk.FuzzExclude = c04XzIndexSuspect
+		}
+	}
+}
+
+// c04XzIndexSuspect over-approximates the class of the known finding: somewhere in the fragments' payloads a
+// zero byte (xz index indicator) is followed by a base-128 number of at least 2^18 (records of 16 bytes: 4 MiB).
+func c04XzIndexSuspect(in []byte) bool {
+	var pay []byte
+	for _, fr := range c04Split(in) {
+		if len(fr) > 2 {
+			pay = append(pay, fr[2:]...)
+		}
+	}
+	for i := 0; i+1 < len(pay); i++ {
+		if pay[i] != 0 {
+			continue
+		}
+		var v uint64
+		for k := 0; i+1+k < len(pay) && k < 10; k++ {
+			b := pay[i+1+k]
+			v |= uint64(b&0x7f) << (7 * uint(k))
+			if b&0x80 == 0 {
+				break
+			}
+		}
+		if v >= 1<<18 {
+			return true
+		}
+	}
+	return false
 }
 
 func c04TargetFragments(in []byte) string {
@@ -154,6 +205,14 @@ func TestVerifC04Fragments(t *testing.T) {
 		}
 	}
 	add("short fragments", [][]byte{{}, {1}, {1, 2}})
+	// an xz stream without any block whose index announces a huge number of records (found by the native fuzzer):
+	// stream header, index indicator 0x00, record count as base-128 number
+	xzHead := []byte{0xfd, '7', 'z', 'X', 'Z', 0x00, 0x00, 0x04, 0xe6, 0xd6, 0xb4, 0x46}
+	for _, cnt := range [][]byte{{0xe1, 0xfb, 0xb1, 0xc4, 0x67}, {0xb1, 0xc4, 0x41}, {0xff, 0xff, 0xff, 0xff, 0xff, 0xff, 0xff, 0xff, 0x7f}, {0x80, 0x80, 0x40}, {0x05}} {
+		st := append(append(append([]byte(nil), xzHead...), 0x00), cnt...)
+		st = append(st, 0, 0, 0, 0, 0, 0, 0, 0)
+		cases = append(cases, vk.C04Case{Class: "xz stream whose index announces many records", Input: c04Join(c04Frames(st, 200, 9))})
+	}
 	vk.RunC04(t, vk.C04Spec{Target: "bbc-fragments", C0: 16 << 20, Unit: vk.Unit{Property: "C04", Name: "c04.bbc-fragments",
 		Rule: "sequences of link fragments through ParseFragment -> Connector.handleIncomingFragment -> IncomingTransmission.Bundle(): valid transmissions, every truncation of the xz stream, single bytes of the xz stream replaced, the carried bundle with every CBOR head at the boundary values, a decompression bomb, all 256 transmission ids x 9 identifier bytes as lone fragments, too short fragments; in child processes; violation = process death, panic, hang, allocation > 16 MiB (xz dictionary) + 256 x len(input); distinct by input hash"}}, cases)
 }
